@@ -93,15 +93,15 @@ PLAN = {
     },
     "C12": {
         "mc": [M("logencode", "MC_LogEncode.tla", "MC_LogEncode.cfg"), MC_INST_NEW], "proofs": ["CompleteSequence.tla"], "gen": [GI("logencode", "LogEncode"), GSM_S], "drive": [D("log_encode", 1000, 50000), D("mixed", 300, 15000), D("pipeline", 150, 8000)],
-        "exhaustive_note": "every (l,u) in halves in [-8,8]; quarters and tenths with independent fractional parts; every width 1..600 (quick) / 4096 (thorough) at 3 offsets up to 2^20; every error condition",
+        "exhaustive_note": "every (l,u) in halves in [-8,8]; quarters and tenths with independent fractional parts; every width 1..600 (quick) / 4096 (thorough) at 3 offsets up to 2^20; ends one grid step (2^-26) on either side of an integer; every error condition; every history of <= 2 (quick) / 3 (thorough) steps of the instance state machine incl. log-encode + substitute",
     },
     "C13": {
         "mc": [M("slack", "MC_Slack.tla", "MC_Slack.cfg", workers=12), MC_INST_NEW], "gen": [GI("slack", "Slack"), GSM_S], "drive": [D("slack", 1000, 40000), D("mixed", 300, 15000), D("pipeline", 150, 8000)],
-        "exhaustive_note": "every f of the family SlackF (linear and bilinear, coefficients {-2,-1,1,1/2,-1/3}) x 3x3 boxes x both conversions x 2 limits, every lattice point and slack value; each rejection condition",
+        "exhaustive_note": "every f of the family SlackF (linear and bilinear, coefficients {-2,-1,1,1/2,-1/3}) x 3x3 boxes x both conversions x 2 limits, every lattice point and slack value; 8x8 coefficients in thirds and sixths x 9 boxes with the constant placing the exact minimum or maximum at 0; each rejection condition",
     },
     "C14": {
         "mc": [MC_INST], "gen": [GI("histories", "Histories"), GSM], "drive": [D("relax_restore", 600, 30000), D("mixed", 300, 15000)],
-        "exhaustive_note": "all relax/restore histories of length <= 3 (quick) / 4 (thorough) over 8 operations (known, unknown, wrong-list ids, empty reason) on an instance with 3 constraints, each followed by an evaluation",
+        "exhaustive_note": "all relax/restore histories of length <= 3 (quick) / 4 (thorough) over 8 operations (known, unknown, wrong-list ids, empty reason) on an instance with 3 constraints, each followed by an evaluation; every history of the instance state machine MC_InstSM of <= 3 steps with one id-creating call (quick: 3 683) / <= 4 steps with two (thorough: 45 580), each closed by three evaluations",
     },
     "C15": {
         "mc": [MC_INST, {"name": "best", "module": "MC_Best.tla", "cfg_quick": "MC_Best.cfg"}], "gen": [GI("best", "Best"), GSM_S],
@@ -118,7 +118,7 @@ PLAN = {
         "mc": [{"name": "mpsreader", "module": "MC_MpsReader.tla", "cfg_quick": "MC_MpsReader.cfg"}],
         "gen": [G("mps", "Gen_Mps.cfg", module="Gen_Mps.tla"),
                 G("mpsrand", "Gen_MpsRand.cfg", module="Gen_Mps.tla", models=("mps_models", 300, 20000))],
-        "exhaustive_note": "20 bound scenarios x marker x 8 layouts; 3 row types x 3 RHS x 4 ranges x 3 objective RHS x 2 layouts; 5 sense forms x 8 layouts x 3 readers; 8 error classes x 8 layouts",
+        "exhaustive_note": "20 bound scenarios x marker x 8 layouts; every BOUNDS block of <= 1 lower-type (LO, LI, MI) and <= 1 upper-type (UP, UI, PL) directive in either order or one of FX, FR, BV over the values {-2,0,1,4} x marker; 3 row types x 3 RHS x 4 ranges x 3 objective RHS x 2 layouts; 5 sense forms x 8 layouts x 3 readers; 8 error classes x 8 layouts",
         "chunk": 1500,
     },
     "C18": {
@@ -137,7 +137,7 @@ PLAN = {
                M("store", "MC_Store.tla", "MC_Store.cfg")],
         "gen": [G("artifact", "Gen_Artifact.cfg", module="Gen_Artifact.tla"), G("store", "Gen_Store.cfg", module="Gen_Store.tla")],
         "drive": [D("store", 300, 10000)],
-        "exhaustive_note": "every add_* sequence of length <= 3 (quick) / <= 4 (thorough) over 4 kinds x 2 payloads (default = empty bytes under every kind, small), and all kind sequences up to length 4 / 6",
+        "exhaustive_note": "every add_* sequence of length <= 3 (quick) / <= 4 (thorough) over 4 kinds x 2 payloads (default = empty bytes under every kind, small), and all kind sequences up to length 4 / 6; 5x5 pairs of time annotations (s, ms, us, ns) on all four layer kinds; every history of <= 3 operations of the artifact store (2 names x 2 paths x 2 (quick) / 3 (thorough) contents)",
         "chunk": 200, "unique_names": True,
     },
 }
